@@ -172,6 +172,15 @@ partial def loop (h : IO.FS.Stream) (st : St) : IO Unit := do
       IO.println s!"MISMATCH {st.id} {st.k} probe {rest} matches none of {cl.length} compatible model states; e.g. {d}"
       loop h { st with dead := true }
     else loop h { st with ss := ss' }
+  | "tc" :: id :: rest =>
+    -- one timed ResponsiveQueue call: `tc <id> w= [T=] [s=] tie= [r=]` -> how and when it ends
+    let kv := Drv.kvs rest
+    let opt (k : String) : Option Nat := (Drv.getS kv k).toNat?
+    let e := timedCall (Drv.getN kv "w" 1) (opt "T") (opt "s") (Drv.getN kv "tie" == 1) (opt "r") (Drv.getN kv "fuel" 64) 0
+    let txt := match e with
+      | .ok t => s!"ok {t}" | .stop t => s!"stop {t}" | .expire t => s!"expire {t}" | .running => "running 0"
+    IO.println s!"out {id} {txt}"
+    loop h st
   | "dump" :: _ =>
     for s in st.ss do
       IO.println s!"STATE {descr s} cons={repr (s.cons.map fun a => (a.pc, a.t0, a.tw))} sups={repr (s.sups.map fun a => (a.pc, a.t0, a.tw))} rtw={s.rtw}"
